@@ -240,7 +240,10 @@ func main() {
 				}
 				s.send(d)
 				burst++
-				if burst >= 1+r.Intn(5) {
+				// on a lossy transport every message is collected before the next is sent: the collector's
+				// reader blocks on the hand-off to the consumer, and a burst of large datagrams could
+				// overflow the socket buffer meanwhile (a loss that would not be the library's doing)
+				if s.lossy || burst >= 1+r.Intn(5) {
 					flush()
 				}
 			}
